@@ -202,3 +202,57 @@ def comparisons(formula: T):
         if n is not None:
             out.append(n)
     return out
+
+
+# ------------------------------------------------- comprehension fusion
+def fuse_elems(t: T) -> T:
+    """elem(comp[f(elem(X)) for .. in X]) -> f(elem(X)) : iterating a list
+    that was built element-wise is the element-wise composition.  Also looks
+    through np.array(list) wrappers.  Only unconditional single-generator
+    comprehensions are fused (conditions change the pairing)."""
+    def rw(x: T):
+        if x.op != "elem":
+            return None
+        src, lid = x.args
+        while src.op == "call" and is_call_to(src, "numpy.array",
+                                              "numpy.asarray",
+                                              "builtins.list") and \
+                len(src.args[1]) == 1:
+            src = src.args[1][0]
+        if src.op == "comp" and len(src.args[2]) == 1 and not src.args[3] \
+                and src.args[0] in ("list", "gen"):
+            it, inner = src.args[2][0]
+
+            def ren(y: T):
+                if y.op == "elem" and y.args[1] == inner:
+                    return T("elem", y.args[0], lid)
+                if y.op == "index" and y.args[0] == inner:
+                    return T("index", lid)
+                return None
+            return src.args[1].map(ren)
+        if src is not x.args[0]:
+            return T("elem", src, lid)
+        return None
+    prev = None
+    cur = t
+    for _ in range(6):
+        if cur is prev:
+            break
+        prev = cur
+        cur = cur.map(rw)
+    return cur
+
+
+def per_element(t: T):
+    """(element term, loop id, iterable) of an array built element-wise:
+    np.array([f(x) for x in X]) -> (f(elem(X)), lid, X)"""
+    src = t
+    while src.op == "call" and is_call_to(src, "numpy.array", "numpy.asarray",
+                                          "builtins.list") and \
+            len(src.args[1]) >= 1:
+        src = src.args[1][0]
+    if src.op == "comp" and len(src.args[2]) == 1 and src.args[0] in (
+            "list", "gen"):
+        it, lid = src.args[2][0]
+        return fuse_elems(src.args[1]), lid, it, src.args[3]
+    return None
